@@ -37,7 +37,9 @@ def variants(cfg, tier):
          # a copy-detected file (REP blocks, hashes inherited) whose stripes were never completed, then removed
          ("copy-partly-synced-removed", [("cp", "d1", "dir/M", "d2", "dir/M"), ("cmd", "sync", "-B", "1"), ("rm", "d2", "dir/M")]),
          # a hash migration scheduled and not completed
-         ("rehash-pending", [("cmd", "rehash")])]
+         ("rehash-pending", [("cmd", "rehash")]),
+         # a synced file replaced by a NEW file of the same block length on the same positions, parity still describing the old one
+         ("replaced-not-yet-in-parity", [("rm", "d2", "K"), ("write", "d2", "K2", 700, 0), ("cmd", "sync", "-S", "1")])]
     if tier == "thorough":
         v += [("copy-partly-synced", [("cp", "d1", "dir/M", "d2", "dir/M"), ("cmd", "sync", "-B", "1")]),
               ("killed-after-parity", [("write", "d2", "B", 900, 0), ("cmd", "sync", "--test-kill-after-sync")])]
